@@ -383,3 +383,18 @@ pub mod ffg {
     #[no_mangle] #[inline(never)] pub fn vp_grp_ed_generator() -> EdwardsPoint { <EdwardsPoint as Group>::generator() }
     #[no_mangle] #[inline(never)] pub fn vp_grp_ed_identity() -> EdwardsPoint { <EdwardsPoint as Group>::identity() }
 }
+
+// ------------------------------------------------------------------ explicit zeroisation (C14)
+#[cfg(feature = "zeroize")]
+pub mod zz {
+    use super::*;
+    use zeroize::Zeroize;
+    #[no_mangle] #[inline(never)] pub fn vp_z_scalar(a: &mut Scalar) { a.zeroize() }
+    #[no_mangle] #[inline(never)] pub fn vp_z_ristretto(a: &mut RistrettoPoint) { a.zeroize() }
+    #[no_mangle] #[inline(never)] pub fn vp_z_compressed_edwards(a: &mut CompressedEdwardsY) { a.zeroize() }
+    #[no_mangle] #[inline(never)] pub fn vp_z_compressed_ristretto(a: &mut CompressedRistretto) { a.zeroize() }
+    #[no_mangle] #[inline(never)] pub fn vp_z_montgomery(a: &mut MontgomeryPoint) { a.zeroize() }
+    #[no_mangle] #[inline(never)] pub fn vp_z_projective_niels(a: &mut ProjectiveNielsPoint) { a.zeroize() }
+    #[no_mangle] #[inline(never)] pub fn vp_z_affine_niels(a: &mut AffineNielsPoint) { a.zeroize() }
+    #[no_mangle] #[inline(never)] pub fn vp_z_fe(a: &mut FieldElement) { a.zeroize() }
+}
